@@ -65,6 +65,36 @@ def gen_ops(rnd, nops):
     return ops, desc, cfgs
 
 
+def cache_keys(rep, rnd, n):
+    """the key under which a (type, name) pair is cached must be the model's injective format_key: type, a dot, the name"""
+    import gen_line as GL
+    pool = GL.NAME_ATOMS + GL.SYNTAX_NAMES + [b"", b".", b"counter", b"gauge.a", b"a.counter", b"observer.x"]
+    cases = []
+    for _ in range(n):
+        name = b".".join(rnd.choice(pool) for _ in range(rnd.randint(1, 4))) if rnd.random() < 0.8 else bytes(rnd.randrange(1, 256) for _ in range(rnd.randint(1, 40))).replace(b"\n", b"n")
+        cases.append((rnd.choice(["counter", "gauge", "observer"]), name))
+    d = vf.tmpdir("C13")
+    cf = f"{d}/cachekeys.cases"
+    vf.write_lines(cf, [f"{t} {vf.hexs(nm)}" for t, nm in cases])
+    impl = vf.run_hx("cachekeys", cf)
+    model = vf.run_model("cachekeys", cf)
+    rep.count(len(cases))
+    bad = 0
+    seen = {}
+    for (t, nm), i, m in zip(cases, impl, model):
+        if i != m:
+            bad += 1
+            if len(rep.violations) < 5:
+                rep.violation("the key handed to the mapping cache is not <type>.<name> (the model's injective format_key)",
+                              dict(metric_type=t, name=repr(nm), name_hex=vf.hexs(nm), impl=i, model=m))
+        k = i.split(" ")[0]
+        if k in seen and seen[k] != (t, nm):
+            rep.violation("two different (type, name) pairs share one cache key", dict(a=repr(seen[k]), b=repr((t, nm)), key=k))
+        seen[k] = (t, nm)
+    rep.extra["cache_keys_compared"] = len(cases)
+    rep.extra["cache_key_disagreements"] = bad
+
+
 def run(rep, tier, seed, replay):
     rep.cov["trusted_base"] = TRUSTED
     rnd = random.Random(seed)
@@ -110,6 +140,11 @@ def run(rep, tier, seed, replay):
                                   dict(ops=ops, desc=desc, cache=[kind, size], op_index=k, impl=i[k], model=m[k]), no_input=True)
         if len(rep.violations) >= 5:
             break
+    if not replay:
+        cache_keys(rep, rnd, 3000 if tier == "quick" else 100000)
+    if not replay:
+        import genproof
+        genproof.mapper_atomicity(rep, "nothing cached under a previous configuration survives a reload, also when lookups run during it")
     rep.extra["disagreements_with_model"] = nbad
     rep.extra["repeated_key_lookups"] = hits
     rep.sample(dict(desc=seqs[0][1][:12], impl=impl[1][:6]))
